@@ -278,3 +278,22 @@ def run(ctx, spec):
             else:
                 ctx.fail(d + '|roundtrip', 're-encoding the decoded point gives %r, not the input %s' % (an[:140], b.hex()[:140]), observed=an, line=line)
     ctx.sample(kind, {'program': [l[:140] for l in pr.lines[:3]], 'release': [a[:100] for a in ans[:3]], 'dev': [a[:100] for a in ans_dev[:3]]})
+
+
+def stages(tier, seed):
+    """thorough: the decoder corpus under AddressSanitizer, and a slice of it (G1 and length cases, cheap in an interpreter) under Miri"""
+    if tier != 'thorough':
+        return []
+    from .. import stages as st
+
+    def asan(exes):
+        picks = [('c08', c) for c in cases('quick', seed)]
+        return st.differential(ID, 'asan', picks, tier, seed, exes, 'asan-decoders')
+
+    def miri(exes):
+        specs = [('len', L) for L in (0, 1, 32, 33, 63, 64, 66)] + [('prefix', 'g1.from_slice', 0)]
+        progs = st.capture_programs('c08', specs, ID, 'quick', seed, exes, limit_lines=14)
+        return st.miri_programs('miri-decoders', progs, exes)
+    asan.__name__ = 'asan-decoders'
+    miri.__name__ = 'miri-decoders'
+    return [asan, miri]
